@@ -113,8 +113,10 @@ class Unit:
                 pool = rx.parse_items(ms[0].src, ms[0].body_open + 1, ms[0].end - 1)
             except rx.LexError as e:
                 raise Undecided('cannot lex mod %s of %s: %s' % (mod, rel, e))
+        # items of the test configuration and of non-default feature sets (`#[cfg(not(feature = ..))]`: every feature of the crate is a default
+        # feature) are not part of the build under verification
         c = [it for it in pool if it.kind == kind and it.name == name
-             and not any('cfg(test)' in a for a in it.attrs)]
+             and not any('cfg(test)' in a or re.search(r'cfg\(\s*not\(\s*feature\b', a) for a in it.attrs)]
         if len(c) != 1:
             raise Undecided('lost anchor: %s %s in %s (%d candidates)' % (kind, name, rel, len(c)))
         return c[0]
